@@ -78,18 +78,31 @@ func runSchedule(e *ev.Env, c *ev.Case, sc *scen, ch sched.Chooser) *schedRun {
 	}
 	advance(sc.Adv)
 	s := sched.New()
-	s.DeadlockCap = 3 * time.Second
+	s.DeadlockCap = 50 * time.Millisecond // nothing on the request path waits on a timer
 	mask := map[string]bool{}
 	for _, m := range sc.Mask {
 		mask[m] = true
 	}
 	g.mask = mask
+	g.concurrent = true
 	g.yield = s.Yield
+	fetched := map[int]bool{} // workers that are past manager.get
 	setHook(func(p string) {
+		fetched[s.WorkerIndex()] = true
 		if mask[p] {
 			s.Yield(p)
 		}
 	})
+	// inLock: the worker is parked at a boundary inside one of the middleware's critical sections
+	inLock := func(p sched.Parked) bool {
+		switch p.Point {
+		case "CacheInvalidator", "Next", "ExpirationGenerator", "storage.set", "storage.delete":
+			return true
+		case "storage.get":
+			return fetched[p.Worker]
+		}
+		return false
+	}
 	ws := make([]*rq, len(sc.Workers))
 	for i := range sc.Workers {
 		q := sc.Workers[i]
@@ -106,9 +119,24 @@ func runSchedule(e *ev.Env, c *ev.Case, sc *scen, ch sched.Chooser) *schedRun {
 			k = 0
 		}
 		if parked[k].Name == "clock" && !ticked {
-			ticked = true
-			time.Sleep(time.Second) // every request is parked: an atomic one-second tick
-			vt.Barrier()
+			// The second only passes while no request is parked inside a critical section: a
+			// callback or storage call that itself takes a second is a different situation (a
+			// hit decided fresh whose separately stored body has expired by the time it is read
+			// is then served with an empty body) and is not judged here.
+			stalled := false
+			for _, p := range parked {
+				if inLock(p) {
+					stalled = true
+				}
+			}
+			if stalled {
+				e.Stat("clock-ticks-skipped-request-inside-critical-section", 1)
+			} else {
+				ticked = true
+				time.Sleep(time.Second) // every request is parked: an atomic one-second tick
+				vt.Barrier()
+				e.Stat("clock-ticks", 1)
+			}
 		}
 		return k
 	})
@@ -295,7 +323,7 @@ func runExh(e *ev.Env, c *ev.Case) {
 		return
 	}
 	sc := scs[idx]
-	max := e.N(4000, 0)
+	max := e.N(800, 6000)
 	n, exhausted, bad := explore(e, c, sc, max, true)
 	e.Stat("exh-scenarios", 1)
 	if exhausted {
